@@ -14,10 +14,14 @@ INPUTUP == <<73,78,80,85,84>>
 CUSTOM == <<120,45,121>>                          \* "x-y"
 PX == <<112>>
 Ck == At(HsAChecked, <<>>)
+CHECKEDUP == <<67,72,69,67,75,69,68>>
 Templates == { <<HsNForm, <<>>>>, <<HsNDiv, <<>>>>,
                <<HsNInput, <<At(HsAType, HsVSubmit)>>>>,
                <<HsNInput, <<At(HsAType, HsVRadio), At(HsAName, <<103>>)>>>>,
                <<HsNInput, <<At(HsAType, HsVRadio), At(HsAName, <<103>>), Ck>>>>,
+               <<HsNInput, <<At(HsAType, HsVRadio), At(HsAName, <<103>>), At(CHECKEDUP, <<>>)>>>>,   \* CHECKED: the checked attribute in HTML, another attribute in XML / XHTML
+               <<HsNInput, <<At(HsAType, <<82,65,68,73,79>>), At(HsAName, <<103>>), Ck>>>>,        \* type=RADIO: a radio button in HTML only
+               <<HsNInput, <<At(HsAType, <<83,85,66,77,73,84>>)>>>>,                                \* type=SUBMIT: a submit button in HTML only
                <<INPUTUP, <<At(HsAType, HsVCheckbox), Ck, At(HsARequired, <<>>)>>>>,
                <<HsNInput, <<At(HsAType, HsVCheckbox), Ck, At(HsARequired, <<>>)>>>>,
                <<HsNA, <<At(HsAHref, <<>>)>>>>,
@@ -27,7 +31,7 @@ Containers == {HsNForm, HsNDiv}
 \* forms, submit buttons and radio buttons are not put into a foreign namespace: what a foreign
 \* element that merely has the name of a form or an input means to the form-owner and group rules
 \* is outside the property
-HtmlOnly(t) == t[1] = HsNForm \/ (t[1] = HsNInput /\ t[2][1].v \in {HsVSubmit, HsVRadio})
+HtmlOnly(t) == t[1] = HsNForm \/ (t[1] = HsNInput /\ Lower(t[2][1].v) \in {HsVSubmit, HsVRadio})
 
 Cx1(c) == [cs |-> <<c>>, cb |-> <<>>]
 TypeS(n) == [k |-> "type", ns |-> Bare, name |-> n]
